@@ -5,14 +5,14 @@ cd "$(dirname "$0")/.."
 ids=${@:-$(ls seeded)}
 fail=0
 for id in $ids; do
-  P=${id%%-*}
+  P=${id:0:3}
   W=/var/tmp/seedrun-$$-$id
   rm -rf $W; mkdir -p $W
   rsync -a --exclude .git --exclude __pycache__ --exclude .benchmarks /repo/ $W/patched/
   if ! patch -s -p1 -d $W/patched < seeded/$id/patch.diff; then echo "$id PATCH-DOES-NOT-APPLY"; fail=1; rm -rf $W; continue; fi
   out=$(VERIF_REPO=$W/patched VERIF_EVIDENCE_DIR=$W/out/evidence VERIF_REPLAY_DIR=$W/out/replays timeout 3000 ./check $P --tier quick 2>&1); rc=$?
   cls=$(echo "$out" | grep -E "^  class=" | head -1 | cut -c1-120)
-  if [ $rc -eq 1 ]; then echo "$id DETECTED by $P $cls"; else echo "$id MISSED (exit $rc)"; fail=1; fi
+  if [ $rc -eq 1 ] && echo "$out" | grep -q "^VIOLATION property=$P "; then echo "$id DETECTED by $P $cls"; else echo "$id MISSED (exit $rc)"; fail=1; fi
   rm -rf $W
 done
 exit $fail
